@@ -5,7 +5,7 @@ from pathlib import Path
 
 V = Path("/verif")
 rows = ["| seeded change | breaks | needs | confirmed | caught by (quick tier) |", "|---|---|---|---|---|"]
-for d in sorted((V / "seeded").iterdir()):
+for d in sorted(x for x in (V / "seeded").iterdir() if x.is_dir()):
     m = json.loads((d / "meta.json").read_text())
     caught = ", ".join(m.get("caught_by") or []) or "— (missed)"
     rows.append(f"| `{m['name']}` | {m.get('property')} | {(m.get('needs') or '')[:110]} | {'yes' if m.get('confirmed') else 'NO'} | {caught} |")
